@@ -33,4 +33,43 @@ structure WebCfgView where
   listen : String
   deriving Repr, DecidableEq
 
+/-! ### package proxy: the fetch result and the Cache-Status record (proxy/fetch_result.go, cache_status_headers.go)
+
+  The views mirror the Go structs field by field (an embedded struct is a field named after its type, as in Go);
+  fields the translated functions never read (`Response`, `Entry`, `Coalesced`) are left out — a translated function
+  that read one would not type-check.  `hitStatus`, `fwdReason`, `fetchType` are `int` enumerations (`iota`): the
+  translator resolves the constants to their values from the source. -/
+
+/-- `proxy.fetchInfo`. -/
+structure FetchInfoView where
+  upstreamStatus : Int
+  status : Int                 -- hitStatus: 0 miss, 1 revalidated, 2 hit
+  upstreamLatency : Int
+  deriving Repr, DecidableEq
+
+/-- `proxy.cachedFetchResult` (the embedded `fetchInfo`). -/
+structure CachedFetchView where
+  fetchInfo : FetchInfoView
+  deriving Repr, DecidableEq
+
+/-- `proxy.directFetchResult` (the embedded `fetchInfo`). -/
+structure DirectFetchView where
+  fetchInfo : FetchInfoView
+  deriving Repr, DecidableEq
+
+/-- `proxy.fetchResult`. -/
+structure FetchResultView where
+  type_ : Int                  -- fetchType: 0 cached, 1 direct
+  cached : CachedFetchView
+  direct : DirectFetchView
+  deriving Repr, DecidableEq
+
+/-- `proxy.cacheStatus`; `typeutils.Optional[T]` is `Option`. -/
+structure CacheStatusView where
+  hitStatus : Int
+  fwdReason : Option Int       -- fwdReason: 0 miss, 1 bypass, 2 stale
+  fwdStatus : Option Int
+  stored : Bool
+  deriving Repr, DecidableEq
+
 end Rv.SrcViews
